@@ -5,6 +5,7 @@ import NixModel.Lemmas.C01Region
 import NixModel.Lemmas.C01Gen
 import NixModel.Lemmas.C01Typed
 import NixModel.Lemmas.C01Spell
+import NixModel.Lemmas.C01Seq
 
 /-!
 # C01 — array data is stored and returned exactly (type, shape, values)
@@ -608,5 +609,80 @@ open Nix.NdSpell Nix.Gen.DataSetDType in
 example : ∃ A, createSpelled (.py .float) (some [2]) none false = some (.ok A) ∧ A.dtype = .float64 := ⟨_, rfl, rfl⟩
 open Nix.NdSpell Nix.Gen.DataSetDType in
 example : spelledArg (.py .str) = some .numpyText ∧ spelledArg (.dtypeObj none "U") = some (.nix .string) := by decide
+
+/-! ## Sources that are not arrays: lists, tuples, ranges, Python scalars
+
+A whole-array write and a region assignment hand such a source to h5py, which reads it with the array's own
+element type (`numpy.asarray(seq, dtype=…)`, `Pure/NdSeq.lean`): NumPy's cast of Python objects, not libhdf5's
+conversion. -/
+
+/-- the steps the driver runs for sequence sources — through the compiled `h5WriteData` — are the model's -/
+theorem C01_seq_source (A : DArr) (s : TStep) : stepSeqGen A s = stepSeq A s := stepSeqGen_eq A s
+
+/-- NumPy's cast: whatever it yields is a value of the array's element type; a Python object that is a value of
+the element type is stored as it is (integers in range, doubles, booleans, text) -/
+theorem C01_seq_cast (t : DType) (x : Elem) :
+    (∀ e, t ≠ .string → castElem t x = .ok e → e.hasType t = true) ∧
+    (x.hasType t = true → t ≠ .float32 → castElem t x = .ok x) :=
+  ⟨fun e ht h => castElem_typed t x e ht h, fun h hf => castElem_exact t x h hf⟩
+
+/-- where the cast differs from the conversion of array data (`C01_conversion`): a Python integer outside the
+range of an integer element type is refused (`OverflowError`) where libhdf5 saturates; inside the range both
+store the integer.  A float NaN is refused (`ValueError`), ±inf too (`OverflowError`) -/
+theorem C01_seq_cast_vs_conversion (t : DType) (lo hi v : Int) (hr : t.intRange = some (lo, hi)) :
+    (lo ≤ v ∧ v ≤ hi → castElem t (.int v) = .ok (.int v) ∧ convElem t (.int v) = .int v) ∧
+    (¬ (lo ≤ v ∧ v ≤ hi) → castElem t (.int v) = .error (.err .overflowError) ∧
+      convElem t (.int v) = .int (clampInt lo hi v)) ∧
+    castElem t (.f64 0x7ff8000000000000) = .error (.err .valueError) ∧
+    castElem t (.f64 0x7ff0000000000000) = .error (.err .overflowError) := by
+  have hc : lo ≤ v ∧ v ≤ hi → clampInt lo hi v = v := by
+    intro h; unfold clampInt
+    rw [if_neg (by omega), if_neg (by omega)]
+  have e1 : castElem t (.int v) = castInt lo hi v := by
+    cases t <;> simp only [DType.intRange, Option.some.injEq, Prod.mk.injEq, reduceCtorEq] at hr <;>
+      (obtain ⟨rfl, rfl⟩ := hr; rfl)
+  have e2 : convElem t (.int v) = .int (clampInt lo hi v) := by
+    cases t <;> simp only [DType.intRange, Option.some.injEq, Prod.mk.injEq, reduceCtorEq] at hr <;>
+      (obtain ⟨rfl, rfl⟩ := hr; rfl)
+  have e3 : ∀ b, castElem t (.f64 b) = (pyIntOfFloat b).bind (castInt lo hi) := by
+    intro b
+    cases t <;> simp only [DType.intRange, Option.some.injEq, Prod.mk.injEq, reduceCtorEq] at hr <;>
+      (obtain ⟨rfl, rfl⟩ := hr; rfl)
+  refine ⟨fun h => ⟨by rw [e1]; unfold castInt; rw [if_pos h], by rw [e2, hc h]⟩,
+    fun h => ⟨by rw [e1]; unfold castInt; rw [if_neg h], e2⟩, ?_, ?_⟩
+  · rw [e3]; rfl
+  · rw [e3]; rfl
+
+/-- a sequence step that raised (`OverflowError`, `ValueError`, the refusals of array steps) leaves the array as
+it was — shape, every element, element type, filter flag -/
+theorem C01_seq_raised_unchanged (A B : DArr) (s : TStep) (e : IoErr) (h : stepSeq A s = some (B, some e)) :
+    EqArr B.arr A.arr ∧ B.dtype = A.dtype ∧ B.compressed = A.compressed :=
+  stepSeq_exc A B s e h
+
+/-- a sequence assignment that raised nothing is the assignment of an array of the array's own element type that
+holds the cast of every element of the sequence: `C01_performed_step`, `C01_typed_history` and `C01_assign_exact`
+apply to it with that array as data.  A sequence of values of the element type is that very array -/
+theorem C01_seq_performed (A B : DArr) (ix : IndexArg) (d : Arr) (hs : A.dtype ≠ .string)
+    (h : stepSeq A (.assign ix d) = some (B, none)) :
+    ∃ d', stepS A (.assign ix d') = (B, none) ∧ d'.dt = A.dtype ∧ d'.a.shape = d.a.shape ∧
+      (∀ idx ∈ indices d.a.shape, castElem A.dtype (d.a.get idx) = .ok (d'.a.get idx)) ∧
+      (d.dt = A.dtype → A.dtype ≠ .float32 →
+        (∀ idx ∈ indices d.a.shape, (d.a.get idx).hasType A.dtype = true) →
+        ∀ idx ∈ indices d.a.shape, d'.a.get idx = d.a.get idx) := by
+  obtain ⟨d', hc, hst⟩ := stepSeq_performed A B ix d h
+  obtain ⟨h1, h2, h3⟩ := castSeq_ok hs hc
+  refine ⟨d', hst, h1, h2, h3, fun hdt hf hty idx hidx => ?_⟩
+  have := h3 idx hidx
+  rw [castElem_exact _ _ (hty idx hidx) hf] at this
+  exact (Except.ok.inj this).symm
+
+example : stepSeq ⟨.int8, false, ⟨[2], fun _ => .int 0⟩⟩ (.write ⟨.int64, ⟨[2], fun _ => .int 300⟩⟩)
+    = some (⟨.int8, false, ⟨[2], fun _ => .int 0⟩⟩, some (.err .overflowError)) := rfl
+example : castElem .int8 (.f64 0xbff8000000000000) = .ok (.int (-1)) := rfl
+example : castElem .bool (.f64 0x7ff8000000000000) = .ok (.bool true) := rfl
+example : castElem .float32 (.int 16777217) = .ok (.f32 0x4b800000) := rfl
+/-- just above the largest finite single: NumPy's cast rounds down to it, libhdf5's conversion says infinity -/
+example : castElem .float32 (.f64 0x47efffffefffffff) = .ok (.f32 0x7f7fffff) ∧
+    convElem .float32 (.f64 0x47efffffefffffff) = .f32 0x7f800000 := ⟨rfl, rfl⟩
 
 end Nix.C01
